@@ -33,11 +33,14 @@ structure Cfg where
   extKeepAll : Bool
   /-- `extend_schema` carries the schema-level `default_resolver` over -/
   extSchemaDres : Bool
+  /-- input fields ADDED by an extension are passed through `extend_type` (C11-S1); otherwise they reference the
+      type object of the schema being extended -/
+  extInputFieldExtended : Bool
   deriving Repr, DecidableEq
 
 /-- the code with every proposed fix applied -/
-def Cfg.fixed : Cfg := ⟨true, true, true, true, true, true, true, true, true, true, true, true, true, true⟩
+def Cfg.fixed : Cfg := ⟨true, true, true, true, true, true, true, true, true, true, true, true, true, true, true⟩
 /-- the code of the unchanged tree (snapshot 2541ded) -/
-def Cfg.legacy : Cfg := ⟨false, false, false, false, false, false, false, false, false, false, false, false, false, false⟩
+def Cfg.legacy : Cfg := ⟨false, false, false, false, false, false, false, false, false, false, false, false, false, false, false⟩
 
 end PyGql.Heap
